@@ -123,6 +123,7 @@ TEXT_DIMS = {
     "zero_padding": lambda n: [b"k=", (b"0", n), b"1"],
     "neg_zero_padding": lambda n: [b"k=-", (b"0", n), b"9"],
     "fraction_digits": lambda n: [b"k=1.", (b"0", n), b"5"],
+    "fraction_zeros": lambda n: [b"k=0.", (b"0", n), b"5 x=y"],
     "dot_run": lambda n: [b"k=", (b"1.", n)],
     "minus_run": lambda n: [b"k=", (b"-", n), b"1"],
     # operators / braces / ghosts
@@ -174,6 +175,7 @@ LEAF_DIMS = {
     "leaf_neg_zero_padding": lambda n: [b"-", (b"0", n), b"12"],
     "leaf_plus_zero_padding": lambda n: [b"+", (b"0", n), b"12"],
     "leaf_fraction": lambda n: [b"1.", (b"0", n), b"5"],
+    "leaf_fraction_zeros": lambda n: [b"0.", (b"0", n), b"5"],
     "leaf_int_part": lambda n: [(b"9", n), b".5"],
     "leaf_letters": lambda n: [(b"y", n)],
     "leaf_yes_pad": lambda n: [b"yes", (b" ", n)],
